@@ -129,14 +129,18 @@ def gen_case(rng, tier, floaty=False):
         if len(set(sp)) != len(sp) or len(sp) > 8:
             continue
         pts = [{p: C.q2s(F(rng.randint(-3, 3), rng.choice([1, 2]))) for p in sp} for _ in range(2)]
-        case = {"mdl": mdl, "points": pts, "float": floaty, "sparse": rng.random() < 0.3, "in_place": rng.random() < 0.5}
+        case = {"mdl": mdl, "points": pts, "float": floaty, "sparse": rng.random() < 0.3, "in_place": rng.random() < 0.5, "prelude": rng.random() < 0.3}
+        consts = sorted(M.const_paths(flat))
+        if consts and not floaty and rng.random() < 0.6:
+            # second point: some parameters get other values at call time than the declared ones
+            case["pis"] = [{}, {p: C.q2s(F(rng.randint(-3, 3), rng.choice([1, 2]))) for p in rng.sample(consts, min(len(consts), rng.randint(1, 2)))}]
         try:
             if floaty:
                 J = dual_jacobian(flat, {p: float(F(v)) for p, v in pts[0].items()}, FUNCS)
                 if any(not math.isfinite(v) or abs(v) > 1e8 for v in J.values()):
                     continue
             else:
-                o = N.oracle_case({"mdl": mdl, "points": pts, "pis": [{}, {}], "interp": {}})
+                o = N.oracle_case({"mdl": mdl, "points": pts, "pis": case.get("pis") or [{}, {}], "interp": {}})
                 if "error" in o or o["bits"] > 40:
                     continue
         except (ValueError, RecursionError, OverflowError, ZeroDivisionError, KeyError):
@@ -150,6 +154,18 @@ def impl_jac(case):
         with warnings.catch_warnings():
             warnings.simplefilter("ignore")
             try:
+                if case.get("prelude"):
+                    # an earlier Jacobian compilation in the same process: the last node of the circuit on its own (its entries then sit at other positions)
+                    try:
+                        pm = json.loads(json.dumps(case["mdl"]))
+                        if not pm["circuit"].get("circuits"):
+                            last = list(pm["circuit"]["nodes"])[-1]
+                            pm["circuit"]["nodes"] = {last: pm["circuit"]["nodes"][last]}
+                            pm["circuit"]["edges"] = [e for e in pm["circuit"]["edges"] if e["src"].startswith(last + "/") and e["tgt"].startswith(last + "/")]
+                            pc, _, _ = M.build_pyrates(pm)
+                            pc.get_jacobian_func("jf0", step_size=1e-3, vectorize=False, float_precision="float64", verbose=False, in_place=False, clear=False)
+                    except Exception:
+                        pass
                 c, _, _ = M.build_pyrates(case["mdl"])
                 func, args, names, smap = c.get_jacobian_func("jf", step_size=1e-3, vectorize=False, float_precision="float64", verbose=False,
                                                               in_place=case.get("in_place", True), clear=False, sparse=case.get("sparse", False))
@@ -157,12 +173,25 @@ def impl_jac(case):
                 return {"error": type(e).__name__, "msg": str(e)[:300], "stage": "compile"}
             out = []
             n = len(np.asarray(args[1]))
-            for pt in case["points"]:
+            names = list(names)
+            raw = []
+            for pt, pi in zip(case["points"], case.get("pis") or [{}] * len(case["points"])):
                 y = np.zeros(n)
                 for p, idx in smap.items():
                     y[idx] = float(F(pt[p]))
+                a2 = list(args)
+                for pname, v in pi.items():          # parameters other than the declared ones, passed at call time
+                    if pname in names:
+                        i = names.index(pname)
+                        a2[i] = np.full(np.shape(args[i]), float(F(v))) if np.shape(args[i]) else float(F(v))
                 try:
-                    J = func(0.0, y, *args[2:])
+                    raw.append(func(0.0, y, *a2[2:]))          # all calls first: a result must stay what it was when later calls are made
+                except Exception as e:
+                    raw.append(e)
+            for J in raw:
+                try:
+                    if isinstance(J, Exception):
+                        raise J
                     sparse_type = type(J).__name__
                     if hasattr(J, "toarray"):
                         J = J.toarray()
@@ -380,14 +409,26 @@ def check(tier, seed, replay=None):
         flat = M.flatten(case["mdl"])
         sp = M.state_paths(flat)
         f = G.features(case["mdl"])
-        rep.count(("F" if case["float"] else "E") + ("-sparse" if case["sparse"] else ""), json.dumps(case, sort_keys=True), nontrivial=(len(sp) >= 2 and (f["n_edges"] > 0 or f["feeders"])))
+        rep.count(("F" if case["float"] else "E") + ("-sparse" if case["sparse"] else "") + ("-callparams" if case.get("pis") else "") + ("-prelude" if case.get("prelude") else ""), json.dumps(case, sort_keys=True), nontrivial=(len(sp) >= 2 and (f["n_edges"] > 0 or f["feeders"])))
         if "error" in im:
             bad.append((case, im, [("raises", im)]))
             continue
         dev = []
         if sorted(im["layout"].values()) != list(range(len(sp))) or set(im["layout"]) != set(sp):
             dev.append(("layout", im["layout"]))
-        for pt, r in zip(case["points"], im["res"]):
+        flat0 = flat
+        for k_pt, (pt, r) in enumerate(zip(case["points"], im["res"])):
+            pi_k = (case.get("pis") or [{}] * len(case["points"]))[k_pt]
+            flat = flat0
+            if pi_k:
+                # the model with the parameter values that were passed at call time
+                flat = json.loads(json.dumps(flat0))
+                for n_ in flat["nodes"]:
+                    for o_ in n_["ops"]:
+                        for d_ in o_["vars"]:
+                            key_ = f"{n_['path']}/{o_['name']}/{d_['name']}"
+                            if key_ in pi_k:
+                                d_["value"] = pi_k[key_]
             if "error" in r:
                 dev.append(("raises-at-call", r))
                 continue
